@@ -392,6 +392,11 @@ class OB:
         rets = [p for p in ps if p.kind == 'return']
         if len(rets) == 0:
             kinds = [(p.kind, getattr(p.exc, 'exc_type', None), getattr(p.exc, 'lineno', None)) for p in ps]
+            # the function does not return normally on any path under the contract's precondition: each raising path is a failed no-raise obligation
+            for p in ps:
+                if p.kind == 'raise' and not allow_raise:
+                    self.items.append(Item(f"{label or 'run'}.no-raise[{p.exc.exc_type}]", 'no-raise', self.hyps + p.pc, z3.BoolVal(False),
+                                           p.exc.lineno, note=f"raises {p.exc.exc_type} at line {p.exc.lineno}", replay=self._replayer()))
             raise Unbound(f"{label or self.name}: no returning path, got {kinds}")
         if len(rets) > 1:
             result, conds = self._merge(rets)
@@ -472,6 +477,13 @@ class OB:
             replay = self._replayer()
         self.items.append(Item(label, kind, hyps, goal, expect=expect, replay=replay, poly=poly, pairs=pairs))
         return goal
+
+    def shape(self, label, ok, detail=''):
+        """path-shape obligation (e.g. 'exactly one returning path'): an item of its own, so that a change of the code's control structure that breaks the
+        contract's frame of reference fails a named obligation instead of crashing the generator; the generator stops cleanly when it fails"""
+        self.items.append(Item(label, 'shape', [], z3.BoolVal(bool(ok)), note=str(detail)[:300]))
+        if not ok:
+            raise Unbound(f"{label}: {detail}")
 
     def prove_pos_identity(self, label, A, B, under=None, cond=None):
         """A == B for positive terms built from products, quotients, 10**u and log10: discharged after log-normalisation (sym.logform).
@@ -818,6 +830,11 @@ def run_generator(prop, name, second_solver=False):
     except Unsupported as e:
         out['status'] = 'unbound'
         out['reason'] = str(e)
+    except (KeyError, AttributeError) as e:
+        # the contract names a function / field / variable the code no longer has: cannot be bound (reported, never an alarm)
+        out['status'] = 'unbound'
+        out['reason'] = f"contract refers to a name the code does not have: {type(e).__name__}: {e}"
+        out['traceback'] = traceback.format_exc()
     except Exception as e:   # noqa
         out['status'] = 'error'
         out['reason'] = f"{type(e).__name__}: {e}"
@@ -825,8 +842,8 @@ def run_generator(prop, name, second_solver=False):
     out['functions'] = sorted(ob.functions)
     out['assumptions'] = ob.assumptions
     out['notes'] = ob.notes
-    if out['status'] == 'ok':
-        # vacuity: the contract hypotheses of the generator must be satisfiable together with the axioms
+    if True:
+        # items generated before a generator stopped (unbound / error) are discharged as well
         for it in ob.items:
             try:
                 r = discharge(it, second_solver)
@@ -842,12 +859,13 @@ def run_generator(prop, name, second_solver=False):
                 except Exception as e:   # noqa
                     r['replay'] = {'reproduced': False, 'error': f"{type(e).__name__}: {e}"}
             out['items'].append(r)
-        if ob._realfn is not None and ob.results:
+        if ob._realfn is not None and ob.results and out['status'] == 'ok':
             try:
                 out['crosscheck'] = crosscheck(ob)
             except Exception as e:   # noqa
                 out['crosscheck'] = {'status': 'error', 'reason': f"{type(e).__name__}: {e}", 'traceback': traceback.format_exc()}
-        if ob.items:
+        if ob.items and out['status'] == 'ok':
+            # vacuity: the contract hypotheses of the generator must be satisfiable together with the axioms
             hy = [_z(h) for h in ob.hyps]
             ax = sym.instantiate_axioms(hy)
             st, _, be, secs = check_sat(list(hy) + ax, timeout_ms=5000, use_cvc5=False)
